@@ -533,6 +533,12 @@ func encodeInfoElementValueToBuff(element InfoElementWithValue, buffer []byte, i
 	if index+element.GetLength() > len(buffer) {
 		return fmt.Errorf("buffer size is not enough for encoding")
 	}
+	// Values of fixed-width data types are written at their full width. An element that declares
+	// a shorter length (reduced-size encoding is not supported) has no room for that: refuse it
+	// rather than write past the end of its field or of the buffer.
+	if width := InfoElementLength[element.GetDataType()]; width != VariableLength && element.GetLength() < int(width) {
+		return fmt.Errorf("element %s declares length %d, but its data type needs %d bytes", element.GetName(), element.GetLength(), width)
+	}
 	switch element.GetDataType() {
 	case OctetArray:
 		v := element.GetOctetArrayValue()
